@@ -129,6 +129,17 @@ theorem behind_union_iff (slave a b : GtidSet) (hs : WF slave) (ha : WF a) (hb :
   · intro h k x hm; exact (update_is_union a b hb.1 k x).mp (h k x hm)
   · intro h k x hm; exact (update_is_union a b hb.1 k x).mpr (h k x hm)
 
+/-- the join does not depend on the order of its operands, and joining a set with itself or with a
+subset adds nothing (as sets of transactions) -/
+theorem update_comm (a b : GtidSet) (ha : WF a) (hb : WF b) (k : Key) (x : Int) :
+    (update a b).Mem k x ↔ (update b a).Mem k x := by
+  rw [update_is_union a b hb.1, update_is_union b a ha.1]; exact Or.comm
+
+theorem update_absorbs_subset (a b : GtidSet) (hb : WF b) (h : GSubset b a) (k : Key) (x : Int) :
+    (update a b).Mem k x ↔ a.Mem k x := by
+  rw [update_is_union a b hb.1]
+  exact ⟨fun h' => h'.elim id (h k x), Or.inl⟩
+
 -- non-vacuity: concrete well-formed sets, one a strict subset of the other, one diverged
 private def u1 : Key := ⟨"00000000-0000-0000-0000-000000000001", ""⟩
 private def u2 : Key := ⟨"00000000-0000-0000-0000-000000000002", ""⟩
